@@ -338,6 +338,10 @@ def ob_kwargs(op):
             v = sym_str(1 + choose(2, 'vl'), 'oldlicense', alphabet='ab ')
             kw = {'license': [v]}
             exp_lic = [l for l in lic if not (len(l) == len(v) and decide(bt_any(l == v)))]
+            if choose(2, 'remove two values') == 1:       # two values in ONE command: neighbours in the list go both
+                w = sym_str(1, 'oldlicense2', alphabet='ab ')
+                kw = {'license': [v, w]}
+                exp_lic = [l for l in exp_lic if not (len(l) == len(w) and decide(bt_any(l == w)))]
         cmd = {'type': 'kwargs', 'function': 'project', 'id': '/', 'operation': op, 'kwargs': kw}
         saved = (R.__dict__.get('open'), R.os)
         R.open = lambda path, mode='r', **k: FakeFile(store, path, mode)
